@@ -1,7 +1,7 @@
 """C15 - expected-claim checks accept exactly the tokens that carry those claims; C16 - custom validators (shared jobs)."""
 from z3 import *
 from ..upperprops import *
-from . import c01
+from . import c01, c13
 
 TRUSTED = ['rustc MIR dump is the semantics of the source', 'serde_json::Value as an algebraic datatype; Index<&str> yields Null for non-objects and missing members; from_str is an uninterpreted partial function',
            'HashMap iteration visits every present key exactly once (order irrelevant to the property)', 'user validators are uninterpreted predicates of (key, value) with a call log',
@@ -115,10 +115,78 @@ def job_parse(ses, proto, prelude, which):
     ses.absorb(ex)
 
 
+def job_registration(ses, which):
+    """check_claim / validate_claim on an arbitrary parser: the expectation (and the validator) given LAST for a key is the one in force, registrations for other
+    keys stay; PasetoParser forwards to the same methods"""
+    w = world(); ex = upper_executor(w)
+    k = String('reg_key'); v = Const('reg_value', JV); kq = String('k_frame'); NEWV = ('user_validator', 77); n = 0
+    for prelude in (False, True):
+        for meth in (('check_claim',) if 'c15' in which else ()) + (('validate_claim',) if 'c16' in which else ()):
+            fs = [g for g in w.fns if g.file == (PP if prelude else GP) and g.method == meth and '{closure' not in g.name]
+            if len(fs) != 1: ses.undecided.append('%s::%s: %d bodies' % ('PasetoParser' if prelude else 'GenericParser', meth, len(fs))); continue
+            sp = SymParser(w, 1, 1)
+            st = new_state(list(sp.assume) + [Length(k) < 2**30]); cell = st.new_cell(sp.prelude_value() if prelude else sp.value())
+            args = [('ref', cell, ()), ('opaque_claim', k, v)] + ([('ref', st.new_cell(NEWV), ())] if meth == 'validate_claim' else [])
+            tag = '%s::%s' % ('PasetoParser' if prelude else 'GenericParser', meth)
+            for s2, r in ex.run(fs[0], args, st, subst={'T': 'SymClaim', 'Version': 'v4::V4', 'Purpose': 'local::Local'}):
+                if isinstance(r, Panic):
+                    if upper_obligation(ses, '%s: no panic (%s)' % (tag, r.msg[:40]), list(s2.pc)): ses.violation(tag + ' panics', {}, {'kind': 'c15'})
+                    continue
+                n += 1
+                pv = s2.store[cell]
+                if prelude: pv = dict(zip(w.fields('PasetoParser'), pv[3]))['parser']
+                g = dict(zip(w.fields('GenericParser'), pv[3])); cl = g['claims']; vm = g['claim_validators']
+                want = um.mk_obj(Store(K(S, False), k, True), Store(K(S, JV.Null), k, v))
+                post = And(Select(cl[1], k), Select(cl[2], k) == want, Implies(kq != k, And(Select(cl[1], kq) == Select(sp.P, kq), Select(cl[2], kq) == Select(sp.V, kq))),
+                           as_str_field(g['footer']) == sp.F, as_str_field(g['implicit_assertion']) == sp.A)
+                rec = upper_obligation(ses, '%s(k, v): the expectation for k is v afterwards (replacing an earlier one), other expectations, footer and assertion untouched' % tag,
+                                       list(s2.pc) + c13.mapdefs_lemmas(s2, [k, kq]) + [Not(post)], values=[k, sp.keys[0]])
+                if rec: ses.violation('%s does not store the expectation it is given / disturbs another' % tag, fmt_model(['key', 'existing'], rec), {'kind': 'c15_registration', 'method': meth, 'prelude': prelude})
+                # validators: the one in force for any key afterwards
+                for probe, desc in ((k, 'the registered key'), (kq, 'another key')):
+                    for c, val in um.vmap_lookup(vm, probe):
+                        is_new = meth == 'validate_claim' and val == ('boxed', args[2])
+                        old_j = [j for j in range(len(sp.vkeys)) if repr(('user_validator', j)) in repr(val)]
+                        if meth == 'validate_claim' and probe is k:
+                            goal = [Select(vm[1], probe), c] if not is_new else None          # a lookup of k that yields an older validator must be infeasible
+                        elif probe is k: goal = [Select(vm[1], probe), c, Not(And(Select(sp.VP, probe), sp.vkeys[old_j[0]] == probe))] if old_j else [Select(vm[1], probe), c]
+                        else:
+                            goal = [probe != k, Select(vm[1], probe), c] if is_new else ([probe != k, Select(vm[1], probe), c, Not(And(Select(sp.VP, probe), sp.vkeys[old_j[0]] == probe))] if old_j else [probe != k, Select(vm[1], probe), c])
+                        if goal is None: continue
+                        rec = upper_obligation(ses, '%s: afterwards the validator in force for %s is %s' % (tag, desc, 'the one just given' if (meth == 'validate_claim' and probe is k) else 'the one it was before'),
+                                               list(s2.pc) + goal, values=[k, sp.vkeys[0]])
+                        if rec: ses.violation('%s: the validator in force for %s afterwards is not %s' % (tag, desc, 'the newly registered one' if (meth == 'validate_claim' and probe is k) else 'the earlier one'),
+                                              fmt_model(['key', 'existing_validator_key'], rec), {'kind': 'c16_registration', 'method': meth, 'prelude': prelude})
+                if meth == 'validate_claim':
+                    if upper_obligation(ses, '%s: the key has a validator afterwards; presence for other keys unchanged' % tag, list(s2.pc) + [Not(And(Select(vm[1], k), Implies(kq != k, Select(vm[1], kq) == Select(sp.VP, kq))))]):
+                        ses.violation('%s does not register a validator for the key / drops another' % tag, {}, {'kind': 'c16_registration', 'method': meth, 'prelude': prelude})
+                else:
+                    if upper_obligation(ses, '%s: validator registrations unchanged' % tag, list(s2.pc) + [Select(vm[1], kq) != Select(sp.VP, kq)]):
+                        ses.violation('%s changes the validator registrations' % tag, {}, {'kind': 'c16_registration', 'method': meth, 'prelude': prelude})
+    if n == 0: ses.undecided.append('registration: nothing executed')
+    ses.absorb(ex)
+
+
+def job_default_registrations(ses):
+    """the batteries-included default parser replaces the equality check by a validator for exp and nbf ONLY: an expected claim under any other key is compared"""
+    from . import c11
+    w = world(); ex = upper_executor(w)
+    st, parser = c11.default_parser_state(w, ex)
+    pf = dict(zip(w.fields('PasetoParser'), parser[3])); g = dict(zip(w.fields('GenericParser'), pf['parser'][3]))
+    keys = sorted(k.as_string() if is_string_value(k) else str(k) for k, _ in g['claim_validators'][2])
+    ses.queries.append({'name': 'PasetoParser::default() registers validators for exactly {exp, nbf}', 'verdict': 'unsat' if keys == ['exp', 'nbf'] else 'sat', 'expected': 'unsat', 'solver': 'structural (value produced by executing default() from MIR)',
+                        'agree': [], 'time_s': 0, 'lemma_instances': 0, 'per_solver': {}})
+    if keys != ['exp', 'nbf']:
+        ses.violation('PasetoParser::default() registers validators for %s: an expected claim under such a key is no longer compared with the token' % keys, {'validator_keys': keys}, {'kind': 'c15'})
+    ses.absorb(ex)
+
+
 def jobs_for(which, tier):
     sizes = [(0, 0), (1, 0), (2, 0), (0, 1), (1, 1), (2, 2)] if tier == 'quick' else [(0, 0), (1, 0), (2, 0), (3, 0), (1, 1), (2, 2), (3, 3), (0, 2)]
     js = [(job_verify_claims, (n, m, which)) for n, m in sizes]
     js += [(job_parse, (p, pre, which)) for p in PROTOCOLS for pre in (False, True)]
+    if 'c15' in which: js.append((job_default_registrations, ()))
+    js.append((job_registration, (which,)))
     return js
 
 
